@@ -197,3 +197,16 @@ Proof.
   exists s. split; [eapply reach_play; [apply reach_init|exact E]|].
   vm_compute in E. inversion E; subst. clear E. repeat split; reflexivity.
 Qed.
+
+(* client: two close() calls racing a blocked receive(); the handshake completes with the peer's code 3000, then the
+   late receive() hits EofStream (its wake-up message was consumed by the second close()) and stores 1000 *)
+Lemma witness_client_eof_overwrites_peer_code :
+  exists s, reach cfgC s /\ finished cfgC s /\ tr_closing s = true /\ sent s = [FClose 1001] /\
+            peer_closes s = [3000] /\ close_code s = Some ws_close_ok.
+Proof.
+  destruct (play cfgC (init cfgC)
+              [[ECall 0 OpRecv]; [ECall 1 (OpClose 1001); EPeerQ (PMsg (MClose 3000)); ECall 2 (OpClose 1001)]])
+    as [s|] eqn:E; [|vm_compute in E; discriminate].
+  exists s. split; [eapply reach_play; [apply reach_init|exact E]|].
+  vm_compute in E. inversion E; subst. clear E. repeat split; try reflexivity. all_tasks.
+Qed.
